@@ -58,3 +58,119 @@ Example C03_example :
       Canon 2 Reduced; Move 0 Keep]) = [false; false; false; true; true].
 Proof. vm_compute. reflexivity. Qed.
 Print Assumptions C03_example.
+
+(* ====================================================================================================
+   The isometry attribute is a theorem, not only a per-instance check (TTN/CanonMore.v, CanonStep.v,
+   CanonDist.v, CanonPath.v, CanonIso.v).  `wfb` is the executable store invariant of TTN/Inv.v;
+   `tstruct` (TTN/CanonTree.v) is its wire-free structural part (a rooted tree given by consistent
+   parent pointers / child lists); `rid` is the temporary identifier of the R factor (a uuid in the code).
+   ==================================================================================================== *)
+From Coq Require Import Permutation.
+From PTN Require Import TTN.StoreProofs TTN.Inv TTN.CanonTree TTN.CanonMore TTN.CanonStep TTN.CanonDist TTN.CanonPath TTN.CanonIso.
+
+(* the two leg specifications of a canonicalisation step partition the node's legs (the precondition
+   of split_nodes); Q gets all legs but the one toward the neighbour, in increasing order; R gets that leg *)
+Theorem C03_qr_leg_specs_partition : forall (n : node) (nb : id) (q r : legspec),
+  node_wf n -> NoDup (neighbouring_nodes n) -> In nb (neighbouring_nodes n) ->
+  build_qr_leg_specs n nb = (q, r) ->
+  exists leg ql, neighbour_index n nb = Some leg /\
+    find_leg_values n q = Some ql /\ find_leg_values n r = Some [leg] /\
+    Permutation (ql ++ [leg]) (seq 0 (nlegs n)) /\
+    ql = seq 0 leg ++ seq (S leg) (nlegs n - S leg).
+Proof. exact build_qr_leg_specs_partition. Qed.
+Print Assumptions C03_qr_leg_specs_partition.
+
+(* the local effect of one step split_qr_contract_r_to_neighbour *)
+Theorem C03_qr_to_neighbour_effect : forall (s : store) (n nb : id) (m : mode) (rid : id) (s' : store),
+  wfb s = true -> amem rid (nodes s) = false -> qr_to_neighbour s n nb m rid = Some s' ->
+  exists nd nd' t' leg df nbn nbn',
+    aget n (nodes s) = Some nd /\ In nb (neighbouring_nodes nd) /\
+    (* (a) n is exactly the fresh Q atom; its bond wire sits on n's leg toward nb *)
+    aget n (nodes s') = Some nd' /\ aget n (tensors s') = Some t' /\ atoms t' = [kq df] /\
+    defs s' = defs s ++ [df] /\ kkind df = 0 /\ kq df = next_atom s /\ kbond df = next_wire s /\
+    neighbour_index nd' nb = Some leg /\ nth (nth leg (perm nd') 0) (axes t') 0 = kbond df /\
+    (* (b) every node other than n and nb is untouched *)
+    (forall k, k <> n -> k <> nb ->
+               aget k (nodes s') = aget k (nodes s) /\ aget k (tensors s') = aget k (tensors s)) /\
+    (* (c) identifiers, root and parent pointers unchanged; only these child lists are reordered *)
+    akeys (nodes s') = akeys (nodes s) /\ root s' = root s /\
+    parent nd' = parent nd /\
+    children nd' = (if match parent nd with Some p => Nat.eqb p nb | None => false end
+                    then children nd else nb :: remove_first nb (children nd)) /\
+    aget nb (nodes s) = Some nbn /\ aget nb (nodes s') = Some nbn' /\ parent nbn' = parent nbn /\
+    children nbn' = (if match parent nd with Some p => Nat.eqb p nb | None => false end
+                     then remove_first n (children nbn) ++ [n] else children nbn) /\
+    (* (d) the temporary identifier is gone *)
+    aget rid (nodes s') = None /\ aget rid (tensors s') = None.
+Proof. exact qr_to_neighbour_effect. Qed.
+Print Assumptions C03_qr_to_neighbour_effect.
+
+(* distance_to_node computes tree distances: every non-centre node has exactly one neighbour that is
+   one step closer, all its other neighbours are one step farther *)
+Theorem C03_distance_step : forall (s : store) (c k : id) (n : node),
+  tstruct (nodes s) -> amem c (nodes s) = true -> aget k (nodes s) = Some n -> k <> c ->
+  exists nb, In nb (neighbouring_nodes n) /\
+    S (dget (distance_to_node s c) nb) = dget (distance_to_node s c) k /\
+    forall x, In x (neighbouring_nodes n) -> x <> nb ->
+              dget (distance_to_node s c) x = S (dget (distance_to_node s c) k).
+Proof. exact dist_step. Qed.
+Print Assumptions C03_distance_step.
+Theorem C03_distance_covers : forall (s : store) (c k : id),
+  tstruct (nodes s) -> amem c (nodes s) = true ->
+  (In k (map fst (distance_to_node s c)) <-> In k (akeys (nodes s))).
+Proof. exact dist_cover. Qed.
+Print Assumptions C03_distance_covers.
+
+(* canonical_form makes every non-centre node an isometry toward the centre, on every tree *)
+Theorem C03_canonical_form_iso : forall (s : store) (oc : option id) (c : id) (m : mode) (rid : id) (cs' : cstore),
+  wfb s = true -> amem rid (nodes s) = false ->
+  canonical_form (s, oc) c m rid = Some cs' -> iso_check cs' = true.
+Proof. exact canonical_form_iso. Qed.
+Print Assumptions C03_canonical_form_iso.
+Theorem C03_canonical_form_iso_tree : forall (s : store) (oc : option id) (c : id) (m : mode) (rid : id) (cs' : cstore),
+  tstruct (nodes s) -> aget rid (nodes s) = None ->
+  canonical_form (s, oc) c m rid = Some cs' ->
+  iso_check cs' = true /\ tstruct (nodes (fst cs')) /\ same_tree (nodes s) (nodes (fst cs')) /\
+  aget rid (nodes (fst cs')) = None.
+Proof. exact canonical_form_iso_tstruct. Qed.
+Print Assumptions C03_canonical_form_iso_tree.
+
+(* move_orthogonalization_center keeps the attribute and arrives at the requested node *)
+Theorem C03_move_center_iso : forall (cs : cstore) (c : id) (m : mode) (rid : id) (cs' : cstore),
+  wfb (fst cs) = true -> amem rid (nodes (fst cs)) = false -> iso_check cs = true ->
+  move_center cs c m rid = Some cs' -> iso_check cs' = true.
+Proof. exact move_center_iso. Qed.
+Print Assumptions C03_move_center_iso.
+Theorem C03_move_center_iso_tree : forall (cs : cstore) (c : id) (m : mode) (rid : id) (cs' : cstore),
+  tstruct (nodes (fst cs)) -> aget rid (nodes (fst cs)) = None -> iso_check cs = true ->
+  move_center cs c m rid = Some cs' ->
+  iso_check cs' = true /\ tstruct (nodes (fst cs')) /\ same_tree (nodes (fst cs)) (nodes (fst cs')) /\
+  aget rid (nodes (fst cs')) = None.
+Proof. exact move_center_iso_tstruct. Qed.
+Print Assumptions C03_move_center_iso_tree.
+Theorem C03_path_from_to_last : forall (s : store) (a b d : id),
+  tstruct (nodes s) -> amem a (nodes s) = true -> amem b (nodes s) = true ->
+  last (path_from_to s a b) d = b.
+Proof. exact path_from_to_last. Qed.
+Print Assumptions C03_path_from_to_last.
+Theorem C03_move_center_reaches : forall (cs : cstore) (c0 c : id) (m : mode) (rid : id) (cs' : cstore),
+  tstruct (nodes (fst cs)) -> snd cs = Some c0 -> amem c0 (nodes (fst cs)) = true ->
+  amem c (nodes (fst cs)) = true -> move_center cs c m rid = Some cs' -> snd cs' = Some c.
+Proof. exact move_center_reaches. Qed.
+Print Assumptions C03_move_center_reaches.
+Theorem C03_wfb_tstruct : forall s : store, wfb s = true -> tstruct (nodes s).
+Proof. exact wfb_tstruct. Qed.
+Print Assumptions C03_wfb_tstruct.
+
+(* non-vacuity of the hypotheses: a 4-node tree with shuffled insertion order satisfies the store
+   invariant, the temporary identifier is fresh, and the canonical form / the move succeed *)
+Example C03_example_hyps :
+  let s := fst (run empty_store [AddRoot 0 [2; 3; 2]; AddChild 1 [2; 3; 2] 0 0 0; AddChild 2 [3; 2] 0 1 1;
+                                 AddChild 3 [2; 2] 1 0 2]) in
+  (wfb s, amem 99 (nodes s),
+   match canonical_form (s, None) 2 Reduced 99 with
+   | Some cs' => match move_center cs' 3 Keep 99 with Some cs'' => (true, snd cs'', iso_check cs'') | None => (false, None, false) end
+   | None => (false, None, false)
+   end) = (true, false, (true, Some 3, true)).
+Proof. vm_compute. reflexivity. Qed.
+Print Assumptions C03_example_hyps.
